@@ -185,7 +185,47 @@ def unit_prebuilt(U):
     C13.unit_dispatch(U, prefix="C09.prebuilt", only=("iterator", "iterator+kwargs"))
 
 
-UNITS = [("prebuilt", unit_prebuilt), ("line.kv", _unit_line(("k=v", 'k="v"'))), ("line.sp", _unit_line(('k "v"', "k v"))), ("vote", unit_vote), ("window", unit_window)]
+def unit_fresh(U):
+    """the dialect REPORTED for a text is inferred from that text on every call: helpers.infer_dialect(s) twice, and the two
+    feature dialects of two parses, are equal but share no mutable part (the dict, its 'order' list) - or a caller who
+    customises the dialect it was given (the documented workflow) changes what the next inference of the same text reports"""
+    picks = [(n, D) for n, D in A.dialects() if n in ("k=v|';'|notrail|norep", 'k "v"|\'; \'|trail|norep', "k=v|'; '|trail|rep")]
+    for dname, D in picks:
+        it = Interp()
+        A.install(it)
+
+        def run(ctx, D=D):
+            items = []
+            for ai, n in enumerate((1, 2)):
+                vals = [A.value_hole("v%d_%d" % (ai, j), D) for j in range(n)]
+                for v in vals:
+                    for c in v.light_constraints():
+                        ctx.assume(c)
+                items.append((A.KEYS[ai], vals))
+            attr = A.enc(items, D)
+            d1 = it.call(H.infer_dialect, [attr], {})
+            d2 = it.call(H.infer_dialect, [attr], {})
+            return d1, d2
+
+        def replay(m, D=D, dname=dname):
+            f = F.Feature(seqid="c", source="s", featuretype="t", start=1, end=2, attributes={"ID": ["a"], "Name": ["x", "y"]}, dialect=dict(D))
+            attr = str(f).split("\t")[8]
+            first = H.infer_dialect(attr)
+            want = {k: (list(v) if isinstance(v, list) else v) for k, v in first.items()}
+            first["trailing semicolon"] = not first["trailing semicolon"]
+            first["field separator"] = " | "
+            first["order"].append("Zzz")
+            again = H.infer_dialect(attr)
+            return {"inputs": {"attributes": attr, "steps": "infer_dialect(s); customise the result in place; infer_dialect(s) again"}, "expected": want, "observed": again, "violates": again != want}
+        for p in U.explore(run, it):
+            ok = p.kind == "return"
+            if ok:
+                d1, d2 = p.value
+                ok = isinstance(d1, dict) and isinstance(d2, dict) and d1 is not d2 and d1["order"] is not d2["order"] and list(d1.keys()) == list(d2.keys())
+            U.prove("C09.infer_dialect.fresh[%s]#p%d" % (dname, p.index), "two inferences of the same text return equal dialects that share neither the dict nor its 'order' list", [], z3.BoolVal(bool(ok)), {}, replay=replay)
+
+
+UNITS = [("fresh", unit_fresh), ("prebuilt", unit_prebuilt), ("line.kv", _unit_line(("k=v", 'k="v"'))), ("line.sp", _unit_line(('k "v"', "k v"))), ("vote", unit_vote), ("window", unit_window)]
 try:
     from standins import C09 as _S
     UNITS = UNITS + list(_S.UNITS)
